@@ -105,6 +105,8 @@ type relayT struct {
 	plan     []string // per request: "ok" | "drop-request" | "drop-reply"
 	hops     []*hop
 	busy     bool
+	marks    chan byte
+	probe    *net.UDPConn
 }
 
 func newRelay(addr, upstream *net.UDPAddr) (*relayT, error) {
@@ -116,7 +118,10 @@ func newRelay(addr, upstream *net.UDPAddr) (*relayT, error) {
 	if err != nil {
 		return nil, err
 	}
-	r := &relayT{addr: addr, down: down, up: up}
+	r := &relayT{addr: addr, down: down, up: up, marks: make(chan byte, 16)}
+	if r.probe, err = net.DialUDP("udp", nil, addr); err != nil {
+		return nil, err
+	}
 	go r.loop()
 	return r, nil
 }
@@ -130,6 +135,10 @@ func (r *relayT) loop() {
 		n, from, err := r.down.ReadFromUDP(buf)
 		if err != nil {
 			return
+		}
+		if n == 2 && buf[0] == 0xee && from.Port == r.probe.LocalAddr().(*net.UDPAddr).Port {
+			r.marks <- buf[1] // the harness's barrier datagram: everything queued before it has been handled
+			continue
 		}
 		h := &hop{req: bytes.Clone(buf[:n])}
 		r.mu.Lock()
@@ -174,7 +183,26 @@ func (r *relayT) set(plan []string) {
 	r.mu.Unlock()
 }
 
+var markSeq byte
+
+// take returns the requests handled since the last call. It first sends a barrier datagram to the relay's
+// socket and waits until the relay has read it: datagrams queue in order, so every request a client sent
+// before this call has been handled (and recorded) by then, however late the relay was scheduled.
 func (r *relayT) take() []*hop {
+	markSeq++
+	r.probe.Write([]byte{0xee, markSeq})
+	deadline := time.After(5 * time.Second)
+wait:
+	for {
+		select {
+		case m := <-r.marks:
+			if m == markSeq {
+				break wait
+			}
+		case <-deadline:
+			break wait
+		}
+	}
 	for i := 0; i < 5000; i++ {
 		r.mu.Lock()
 		b := r.busy
